@@ -4,7 +4,16 @@
    ADVERSARY=0: random schedules with several bargers.
    Oracle: the number of times the victim blocks on its semaphore inside ONE lock call is bounded by
    LONG_WAIT_THRESHOLD + slack (once it has lost the race that often, fresh threads can no longer overtake it). */
+#include "nsync_cpp.h"
+#include "platform.h"
+#include "compiler.h"
+#include "cputype.h"
 #include "nsync.h"
+#include "dll.h"
+#include "sem.h"
+#include "wait_internal.h"
+#include "common.h"      /* LONG_WAIT_THRESHOLD: the library's own fixed threshold (C14: "a fixed number of times") */
+#include "atomic.h"
 #include "vrt.h"
 #include <stdio.h>
 
@@ -12,7 +21,7 @@ static nsync_mu mu;
 static int victim_tid, nbarger, kind;     /* kind 0: writer among writers, 1: writer among readers, 2: reader among writers */
 #define HOLD 3        /* shadow: number of bargers pausing inside their critical section */
 #define VDONE 4
-#define BOUND (30 + 4)
+#define BOUND (LONG_WAIT_THRESHOLD + 4)
 
 static void victim (void *a) {
 	long before = vrt_sleeps_of (vrt_self ()), n;
@@ -22,11 +31,11 @@ static void victim (void *a) {
 	vrt_sh_set (VDONE, 1);
 	vrt_note ("victim slept %ld times", n);
 	if (n > BOUND) vrt_fail ("C14", "the victim blocked %ld times inside one lock call (bound %d): it is overtaken indefinitely", n, BOUND);
-	if (n >= 30) vrt_count ("victim_escalated");
+	if (n >= LONG_WAIT_THRESHOLD) vrt_count ("victim_escalated");
 	vrt_count ("victim_done");
 }
 static void barger (void *a) {
-	int k, rounds = vrt_opt ("ROUNDS", 60);
+	int k, rounds = vrt_opt ("ROUNDS", 2 * LONG_WAIT_THRESHOLD);   /* enough arrivals to exceed BOUND if nothing stopped them */
 	for (k = 0; k < rounds && !vrt_sh_get (VDONE); k++) {
 		int reader = (kind == 1);
 		if (reader) nsync_mu_rlock (&mu); else if (vrt_rand (4) == 0) { if (!nsync_mu_trylock (&mu)) continue; } else nsync_mu_lock (&mu);
